@@ -2,6 +2,7 @@ package rules
 
 import (
 	"fmt"
+	"go/token"
 	"go/types"
 	"reflect"
 	"strings"
@@ -115,6 +116,13 @@ func ruleDateLayouts(c *core.Ctx, rule string) {
 				fname := core.FuncName(fn)
 				pos := c.P.Pos(call.Pos())
 				c.Universe(rule+" date layout sinks", fmt.Sprintf("%s %s (%s)", fname, kind, pos))
+				// a record's heading is parsed as it stands: what is handed to time.Parse is the Header itself, not a
+				// piece of it or something made from it (cut to the layout's length, trimmed of a remark)
+				if kind == "time.Parse" && len(call.Call.Args) == 2 {
+					if why := alteredHeader(call.Call.Args[1]); why != "" {
+						c.Violate(rule, fname, "heading as it stands", pos, "the heading of a record is altered before it is parsed as a date ("+why+"): for layouts whose text is not as long as the dates they describe (2006/1/2 against 2021/1/24) a piece of the date is cut off and another day is read without any error, and what print writes is no longer what was read", nil)
+					}
+				}
 				srcs := g.Sources(flow.ValueNode(layout))
 				disc := kind
 				if vals, only := onlyConstSources(srcs); only {
@@ -134,7 +142,9 @@ func ruleDateLayouts(c *core.Ctx, rule string) {
 				}
 				other := ""
 				for _, sc := range srcs {
-					if n := string(sc.Node); strings.HasPrefix(n, "flag:") && !strings.Contains(n, "(date-format)") {
+					// (the flow is by field, so flags read through a shared helper mix in: only a flag that is about a
+					// format or a date by its name is taken for a second layout setting)
+					if n := string(sc.Node); strings.HasPrefix(n, "flag:") && !strings.Contains(n, "(date-format)") && (strings.Contains(n, "format") || strings.Contains(n, "layout")) {
 						other = n
 					}
 				}
@@ -151,4 +161,38 @@ func ruleDateLayouts(c *core.Ctx, rule string) {
 	if n == 0 {
 		c.Undecide(rule, "layouts", "universe", "-", "no time.Parse / Time.Format call in the tree although days must be parsed and printed", nil)
 	}
+}
+
+// alteredHeader: v is computed from a record's Header field by something other than taking the field (a slice of it,
+// the result of a function it is handed to); "" when v is the field itself or has nothing to do with a heading.
+func alteredHeader(v ssa.Value) string {
+	isHeader := func(x ssa.Value) bool {
+		ld, ok := x.(*ssa.UnOp)
+		if !ok || ld.Op != token.MUL {
+			return false
+		}
+		fa, ok := ld.X.(*ssa.FieldAddr)
+		return ok && fieldName(fa.X.Type(), fa.Field) == "Header"
+	}
+	switch t := v.(type) {
+	case *ssa.Slice:
+		if isHeader(t.X) {
+			return "a slice of it"
+		}
+	case *ssa.Call:
+		for _, a := range t.Call.Args {
+			if isHeader(a) {
+				name := t.Call.Value.Name()
+				if cal := core.Callee(&t.Call); cal != nil {
+					name = cal.Name()
+				}
+				return "it goes through " + name + " first"
+			}
+		}
+	case *ssa.BinOp:
+		if isHeader(t.X) || isHeader(t.Y) {
+			return "text is added to it"
+		}
+	}
+	return ""
 }
